@@ -5,8 +5,8 @@ import json, sys
 props = [json.loads(l) for l in open('/verif/properties.jsonl')]
 ids = [p['id'] for p in props]
 
-E1 = "E1 sequential histories on real subjects (mem/sqlite x library/HTTP, reopen) with observational monitors"
-TB = "Trusted: the harness's tracker/oracles (written from the property statements), the Rust toolchain, SQLite. Ids are random and bound at first observation; freshness judged within one run. Sequential histories only (concurrency is C03)."
+E1 = "E1 sequential histories on real subjects (mem/sqlite x library/HTTP/socket/real executable; reopen, kill -9 restart, two instances on one directory, allow-listed re-created servers) with observational monitors"
+TB = "Trusted: the harness's tracker/oracles (written from the property statements), the Rust toolchain, SQLite. Ids are random and bound at first observation; freshness judged within one run. E1 histories are sequential; the concurrent parts named in the level text reuse the C03 explorer / stress engines."
 
 checks = {
  "C01": dict(cat="exploration", tech="runtime monitoring: chain-walk monitor over generated adversarial histories + raw-SQL fork/orphan scan", ref="DESIGN.md §7 C01",
@@ -17,8 +17,8 @@ checks = {
    text="A ledger of every accepted (version, parent, payload) is re-read through GetChildVersion after later operations (a third after each op, all every 10 ops, after each reopen, at the end), across snapshots, rejected requests, other clients and reopen, incl. 500-2000-op histories; plus multi-threaded stress runs after which every acknowledged version must still be served unchanged."),
  "C08": dict(cat="exploration", tech="runtime monitoring: paired-probe oracle GetChildVersion(p);AddVersion(p) on one state; exhaustive small scope + random", ref="DESIGN.md §7 C08",
    text="GetChildVersion(p) immediately followed by AddVersion(p) on the same state: found iff an accepted child exists, not-found iff the add is accepted, gone iff rejected; exhaustive over chain length x base x snapshot x class of p, plus random histories; never-seen clients answered not-found."),
- "C09": dict(cat="exploration", tech="runtime monitoring: two-run non-interference (projection re-run alone) + per-operation dumps of all other clients", ref="DESIGN.md §7 C09",
-   text="Each multi-client history is run in full and then projected onto each client and re-run alone with foreign ids kept concrete; responses must agree one-to-one; in the full run each operation must leave every other client's dump (and their SQL rows) unchanged. Half the histories are aligned to make a missing client filter hit."),
+ "C09": dict(cat="exploration", tech="runtime monitoring: two-run non-interference (projection re-run alone; sequentially interleaved and with the clients acting at the same time on threads) + per-operation dumps of all other clients", ref="DESIGN.md §7 C09",
+   text="Each multi-client history is run in full and then projected onto each client and re-run alone with foreign ids kept concrete; responses must agree one-to-one; in the full run each operation must leave every other client's dump (and their SQL rows) unchanged. Half the histories are aligned to make a missing client filter hit. Concurrent part: 3-5 clients on one thread each (shared server, per-thread servers on one SQLite directory, sockets) compared with each client's solo run; two clients' uploads interleaving on one server worker keep their own bytes."),
  "C10": dict(cat="exploration", tech="runtime monitoring: window-predicate oracle on observed chain/snapshot, decline framing by state dumps, monotone position; exhaustive small scope + random bursts", ref="DESIGN.md §7 C10",
    text="Every AddSnapshot is judged by the five-version window predicate evaluated on the observed state (exhaustive: chain length 0..6/8 x base x snapshot position x class of v; random bursts); declines must leave the full dump unchanged; snapshot position never moves backwards; the unspecified corner (v == non-nil base) is tolerated and tallied."),
  "C11": dict(cat="exploration", tech="runtime monitoring: snapshot pairing oracle (distinct bytes per upload) + walk from snapshot to latest after every AddVersion/AddSnapshot", ref="DESIGN.md §7 C11",
@@ -37,25 +37,25 @@ checks.update({
    text="Grammar product route x method x client-id form x path-id form x content-type form x body class against servers with non-trivial state on both backends: never 5xx/panic, state (full dump) changes only on a 200 POST to an add route, must-refuse classes get 4xx with unchanged state; 100 MiB limit: limit-1/limit accepted and read back, limit+1 (one chunk, many chunks, limit then one byte) refused.",
    note="Trusted: the request classification (written from the statement; forms the statement leaves open are 'ambiguous' and only the universal rules apply), in-process delivery through actix's test request type (raw-socket framing is exercised by the socket engines)."),
  "C16": dict(cat="exploration", tech="runtime monitoring: enumerated allow-list matrix with storage AccessLog wrapper (zero txn() calls on refusal) and list-less twin comparison", ref="DESIGN.md §7 C16",
-   text="Allow-list {absent, empty, one, many} x 4 endpoints x id class (listed, unlisted with pre-existing data, unknown, malformed, alternative spellings) x validity on both backends: unlisted => 403 (4xx when doubly bad) with zero storage accesses observed at the Storage trait and unchanged dumps; allowed requests and whole listed-client histories answered exactly as on a list-less twin.",
+   text="Allow-list {absent, empty, one, many} x 4 endpoints x id class (listed, unlisted with pre-existing data, unknown, malformed, alternative spellings) x validity on both backends: unlisted => 403 (4xx when doubly bad) with zero storage accesses observed at the Storage trait and unchanged dumps; allowed requests and whole listed-client histories answered exactly as on a list-less twin. Unlisted ids include ids bit-wise related to a listed one, ids under other header names, alternative spellings; path ids include the nil id.",
    note="Trusted: AccessLog wrapper at the public Storage trait boundary; alternative spellings of a listed id may be refused or served as that client."),
  "C20": dict(cat="exploration", tech="runtime monitoring: response tap asserting Cache-Control no-store on every response of the grammar run, protocol histories and forced 5xx", ref="DESIGN.md §7 C20",
-   text="A tap in the HTTP client layer inspects every response produced by the request grammar (all routes, methods, refusals, unknown routes), by protocol histories (200/404/409/410) and by a storage failing on purpose (500); each must carry Cache-Control with no-store; the run must have observed 200/400/404/409/410/500 and unknown routes.",
+   text="A tap in the HTTP client layer inspects every response produced by the request grammar (all routes, methods, refusals, unknown routes), by protocol histories (200/404/409/410) and by a storage failing on purpose (500); each must carry Cache-Control with no-store; the run must have observed 200/400/404/409/410/500 and unknown routes. Also CORS preflights, well-known operational paths, HTTP/1.0 requests, and the real executable (with debug logging; healthy and with its data directory removed).",
    note="Scope: responses generated by the application service; replies actix's HTTP/1 codec emits before routing (syntactically invalid HTTP) never reach the application and are not judged."),
 })
 checks.update({
- "C03": dict(cat="exploration", tech="runtime monitoring: controlled scheduler at the Storage-trait boundary (DFS over transaction orders + real-lock probes) with a differential linearizability oracle", ref="DESIGN.md §6 E2, §7 C03",
-   text="2-3 worker threads run real requests (library and HTTP handlers) against one shared storage (in-memory, one SQLite object, one SQLite object per worker on one directory) under a controller that grants one worker at a time at every storage call, transaction begin and request invoke/return. All begin orders exclusive locking permits are enumerated per scenario (capped in quick), plus sampled schedules: one-preemption schedules (a worker set aside after k steps while the others run to completion) and random ones that begin a transaction while another is open so the backend's own lock/busy handler is exercised; a worker that waits for anything a suspended worker holds is detected by a timer and scheduled around. An execution is accepted iff some real-time-respecting one-at-a-time order of the same requests, executed by the same code on a fresh storage, gives the same responses and final state; any server error under overlap is a violation. One recorded finding (two-step client creation observable through AddSnapshot) is matched by signature and printed as KNOWN-FINDING.",
+ "C03": dict(cat="exploration", tech="runtime monitoring: controlled scheduler at the Storage-trait boundary (DFS over transaction orders + one-preemption and random schedules + real-lock probes; requests that never complete are detected) with a differential linearizability oracle", ref="DESIGN.md §6 E2, §7 C03",
+   text="2-3 worker threads run real requests (library and HTTP handlers) against one shared storage (in-memory, one SQLite object, one SQLite object per worker on one directory) under a controller that grants one worker at a time at every storage call, transaction begin and request invoke/return. All begin orders exclusive locking permits are enumerated per scenario (capped in quick), plus sampled schedules: one-preemption schedules (a worker set aside after k steps while the others run to completion) and random ones that begin a transaction while another is open so the backend's own lock/busy handler is exercised; a worker that waits for anything a suspended worker holds is detected by a timer and scheduled around. An execution is accepted iff some real-time-respecting one-at-a-time order of the same requests, executed by the same code on a fresh storage, gives the same responses and final state; any server error under overlap is a violation. One recorded finding (two-step client creation observable through AddSnapshot) is matched by signature and printed as KNOWN-FINDING. Uncontrolled tiers: stress on threads / per-thread SQLite objects / sockets / two real server processes with an order-based checker, two uploads of one client whose bodies interleave on one server worker, and (thorough) the in-memory workload under Miri.",
    note="Bounded: 2-3 requests, yield points at storage-call granularity; interleavings inside SQLite and between processes are left to the stress tier. The sequential reference is the code itself (differential), so a purely sequential defect is not attributed to C03."),
 })
 checks.update({
  "C05": dict(cat="fault_enumeration", tech="runtime monitoring: exhaustive fault injection at the StorageTxn boundary (every call of every request, fail-before / fail-after) with error/no-partial-effect/lock-release oracle on restored directory images", ref="DESIGN.md §7 C05",
-   text="For every request of generated histories on SQLite (library and HTTP handlers, incl. the create-client-and-retry path) the storage call sequence is learned, then each call is made to fail before or after taking effect on a restored image of the data directory: the client must get an error, all SQL rows must equal the pre-state (post-state only for a commit that took effect), no transaction may stay open, and follow-up requests must succeed (thorough: second fault in the follow-up).",
+   text="For every request of generated histories on SQLite (library and HTTP handlers, incl. the create-client-and-retry path) the storage call sequence is learned, then each call is made to fail before or after taking effect on a restored image of the data directory: the client must get an error, all SQL rows must equal the pre-state (post-state only for a commit that took effect), no transaction may stay open, and follow-up requests must succeed (thorough: second fault in the follow-up). A quarter of the histories run on a shim without shared-memory support (WAL cannot be enabled; rollback-journal mode, where a commit itself can be refused with BUSY), and lock refusals are also injected as a persistent condition.",
    note="Faults are synthetic errors at the public trait boundary; single faults exhaustive, double faults = fault in the request + fault in the follow-up. SQLite-internal I/O error paths are covered by the VFS engine when built."),
 })
 checks.update({
  "C04": dict(cat="fault_enumeration", tech="runtime monitoring: recording SQLite VFS shim under the real connections; every write/truncate/sync/delete a crash point; process-crash and power-loss images rebuilt from the event log and recovered with the code under test", ref="DESIGN.md §7 C04",
-   text="Histories (library and HTTP handlers, solo and bystander-connection regimes, payloads 10 B..1.5 MB, clients with nil and non-nil chain base) run on SQLite over a VFS shim that logs every I/O of the repository's own connections. At every (sampled when very many) write/truncate/sync/delete the process-crash image and a family of power-loss images (last synced content + none/all/prefix/single-drop/single-keep/random subsets of later writes, unsynced deletes applied or undone, torn sectors in thorough) are opened with the code under test: it must open, pass integrity_check and hold exactly the rows of the state before or after the in-flight request, or the acknowledged state once the request had returned.",
+   text="Histories (library and HTTP handlers, solo and bystander-connection regimes, payloads 10 B..1.5 MB, clients with nil and non-nil chain base) run on SQLite over a VFS shim that logs every I/O of the repository's own connections. At every (sampled when very many) write/truncate/sync/delete the process-crash image and a family of power-loss images (last synced content + none/all/prefix/single-drop/single-keep/random subsets of later writes, unsynced deletes applied or undone, torn sectors in thorough) are opened with the code under test: it must open, pass integrity_check and hold exactly the rows of the state before or after the in-flight request, or the acknowledged state once the request had returned. End-to-end: the real executable (with and without an allow-list, with and without another process holding the database open) is killed with kill -9 at random instants, during start-up, and the moment a 9-12 MiB snapshot is acknowledged; after restart every acknowledged version and snapshot must be served.",
    note="Power loss is simulated from recorded I/O under a stated file-system model (fsync = per-file barrier that also makes earlier unlinks durable; unsynced writes land in any subset; -shm dropped). Trusted: the shim (about 350 lines of unsafe FFI, exercised under valgrind in the thorough tier when built), the shadow model, SQLite itself."),
 })
 checks.update({
@@ -63,12 +63,12 @@ checks.update({
    text="Versions and snapshots of chosen lengths, byte classes and chunkings are uploaded and read back through the same path (library; in-process service with chunk-exact payload streams; in-process HttpServer over TCP with chunked / segmented Content-Length bodies; the real executable with SQLite) and compared byte for byte with the regenerated upload, ids included; 16 MiB in quick, 100 MiB in thorough.",
    note="Sizes between the scanned windows are sampled; Content-Encoding is outside the oracle."),
  "C17": dict(cat="exploration", tech="runtime monitoring: process driver for the real executable (flags vs environment), HTTP over loopback, kill -9 and restart, oracles = allow-list table, exact urgency specification, stored history", ref="DESIGN.md §7 C17",
-   text="Seeded configurations (1-3 listen addresses over 127.0.0.1/[::1]/localhost, data dir, allow-list none/one/many unsorted, snapshot targets; each by flag or environment variable) are given to the real binary: every address must serve, listed clients served and strangers refused, X-Snapshot-Request must follow the configured versions target along a real history, after kill -9 and restart (configuration re-expressed in the other form) chain, payloads and snapshot are served as stored, and after ageing the stored snapshot the urgency must follow the configured days target.",
+   text="Seeded configurations (1-3 listen addresses over 127.0.0.1/[::1]/localhost, data dir, allow-list none/one/many unsorted, snapshot targets; each by flag or environment variable) are given to the real binary: every address must serve, listed clients served and strangers refused, X-Snapshot-Request must follow the configured versions target along a real history, after kill -9 and restart (configuration re-expressed in the other form) chain, payloads and snapshot are served as stored, and after ageing the stored snapshot the urgency must follow the configured days target. Data directories with unusual names and not-yet-existing parents must hold the database (nothing beside them); in half of the configurations another process has the database open across the kill and restart.",
    note="Configuration space sampled (12 quick / 144 thorough); only loopback exists. If a library API change keeps the harness from building, the previously built harness drives the freshly built executable."),
 })
 checks.update({
  "C19": dict(cat="exploration", tech="runtime monitoring: differential read of data directories written by the pinned code (committed corpus incl. kill -9 leftovers + directories written on every run by vendored pinned crates) with an expected-content oracle, then append", ref="DESIGN.md §7 C19",
-   text="A committed corpus of 12 data directories produced by the pinned tree (pinned executable over HTTP, pinned library, kill -9 with a live WAL, copy with an un-checkpointed WAL, payloads to 1 MB) plus ~100 (quick) / 3000 (thorough) directories freshly written by a verbatim vendored copy of the pinned core+sqlite crates are opened by the current code: every client, version, payload byte, latest pointer and snapshot (id, whole-second time, versions-since, bytes) must be served as written, then 5 versions and a snapshot are appended to each chain and the old history re-read.",
+   text="A committed corpus of 12 data directories produced by the pinned tree (pinned executable over HTTP, pinned library, kill -9 with a live WAL, copy with an un-checkpointed WAL, payloads to 1 MB) plus ~100 (quick) / 3000 (thorough) directories freshly written by a verbatim vendored copy of the pinned core+sqlite crates are opened by the current code: every client, version, payload byte, latest pointer and snapshot (id, whole-second time, versions-since, bytes) must be served as written, then 5 versions and a snapshot are appended to each chain and the old history re-read. Directories are opened through the library, through a symbolic link, or by an allow-listed web server; freshly written ones include chains that start inside another client's chain and 17-100 MiB payloads.",
    note="'Pinned release' = sources at a6bc6ed compiled with today's toolchain + the committed corpus (fixtures/), each directory with expected.json."),
 })
 checks.update(json.load(open('/verif/tools/manifest_extra.json')) if __import__('os').path.exists('/verif/tools/manifest_extra.json') else {})
